@@ -3,6 +3,12 @@
 //! property oracles directly to the implementation's outputs.
 pub mod frames;
 pub mod gen;
+pub mod opclass;
+pub mod opclass_core;
+pub mod opclass_data;
+pub mod opclass_endpoint;
+pub mod opclass_recovery;
+pub mod opclass_wire;
 pub mod scen_gate;
 pub mod scen_multi;
 pub mod ledger;
@@ -110,7 +116,17 @@ pub struct Runner {
     pub oracle_failures: Vec<String>,
     pub samples: Vec<Vec<String>>,
     cur: Vec<String>,
+    /// every request line of the current case (replay of a panic finding)
+    cur_ops: Vec<String>,
     pub case_id: String,
+    /// reachability classes of the ops of the current case (audit TOP GAP 1): see `opclass`
+    pub class: opclass::CaseClass,
+    /// panics on peer input / in-contract API calls per component (statistics)
+    pub class_hist: BTreeMap<String, u64>,
+    /// cases in which some op was outside the peer/API contract (later panics there are not judged)
+    pub tainted_cases: u64,
+    /// first panic of a case that was not judged (out-of-contract op, or after one)
+    pub unjudged_panics: Vec<String>,
 }
 
 impl Default for Runner {
@@ -136,7 +152,12 @@ impl Runner {
             oracle_failures: Vec::new(),
             samples: Vec::new(),
             cur: Vec::new(),
+            cur_ops: Vec::new(),
             case_id: String::new(),
+            class: opclass::CaseClass::default(),
+            class_hist: BTreeMap::new(),
+            tainted_cases: 0,
+            unjudged_panics: Vec::new(),
         }
     }
 
@@ -146,6 +167,8 @@ impl Runner {
         self.case_hash = 0xcbf2_9ce4_8422_2325;
         self.case_nontrivial = false;
         self.cur.clear();
+        self.cur_ops.clear();
+        self.class.reset();
         let line = format!("case {id}");
         self.raw(&line);
     }
@@ -155,6 +178,9 @@ impl Runner {
             return;
         }
         self.cases += 1;
+        if self.class.tainted {
+            self.tainted_cases += 1;
+        }
         if self.case_nontrivial && self.distinct.insert(self.case_hash) {
             self.nontrivial += 1;
         }
@@ -207,13 +233,75 @@ impl Runner {
         }
         self.case_hash = (self.case_hash ^ 10).wrapping_mul(0x1000_0000_01b3);
         self.evaluations += 1;
+        let class = self.class.classify(line);
+        self.cur_ops.push(line.to_string());
         let resp = self.raw_observed(line, observe);
+        self.panic_oracle(line, class, &resp);
         let rk = resp.split_ascii_whitespace().next().unwrap_or("").to_string();
         *self.resp_hist.entry(rk).or_default() += 1;
         if self.cur.len() < 12 {
             self.cur.push(format!("{line} => {resp}"));
         }
         resp
+    }
+
+    /// Execute one op with an explicit class (overrides the table in `opclass`): for generators that know
+    /// more about reachability than the op line shows.
+    pub fn op_class(&mut self, line: &str, class: opclass::Class) -> String {
+        self.class.force = Some(class);
+        self.op(line)
+    }
+    pub fn op_peer(&mut self, line: &str) -> String {
+        self.op_class(line, opclass::Class::Peer)
+    }
+
+    /// C03 / audit TOP GAP 1: a panic of the real code on an op that a remote peer (or the local application
+    /// inside the API contract) can cause, in a case whose earlier ops were all of that kind, is a violation
+    /// whatever the model answers.
+    fn panic_oracle(&mut self, line: &str, class: Option<opclass::Class>, resp: &str) {
+        use opclass::Class;
+        let Some(class) = class else { return };
+        let mut it = line.split_ascii_whitespace();
+        let comp = it.next().unwrap_or("").to_string();
+        let kind = it.next().unwrap_or("").to_string();
+        *self.class_hist.entry(format!("{comp} {kind}:{class:?}")).or_default() += 1;
+        if resp == "panic" {
+            if !self.class.tainted && !self.class.panicked {
+                match class {
+                    Class::Peer => {
+                        let ops = self.cur_ops.join(" ; ");
+                        self.oracle_fail(&format!(
+                            "key=C03-panic-on-peer-input.{comp}.{kind} component={comp} op={kind} line=[{line}] replay=[{ops}]"
+                        ));
+                    }
+                    Class::Local => {
+                        let p = opclass::own_property(&comp);
+                        let ops = self.cur_ops.join(" ; ");
+                        self.oracle_fail(&format!(
+                            "key={p}-panic-on-api-call.{comp}.{kind} component={comp} op={kind} line=[{line}] replay=[{ops}]"
+                        ));
+                    }
+                    Class::Contract | Class::Probe => {}
+                }
+            }
+            if !self.class.panicked && class != Class::Probe && (self.class.tainted || class == Class::Contract) {
+                // census of the panics that are NOT judged (microdiff writes them to <prefix>.stats)
+                let why = if self.class.tainted { format!("tainted by [{}]", self.class.tainted_by) } else { format!("{class:?}") };
+                self.unjudged_panics.push(format!("case {}: component={comp} op={kind} line=[{line}] class={class:?} {why}", self.case_id));
+            }
+            // the component state may be poisoned: nothing after the first panic is judged (a Probe is a pure
+            // call on something that is not the state under test: it cannot poison it)
+            if class != Class::Probe {
+                self.class.panicked = true;
+            }
+        }
+        *self.class_hist.entry(if self.class.tainted || self.class.panicked { "ops:unjudged".to_string() } else { "ops:judged".to_string() }).or_default() += 1;
+        let was = self.class.tainted;
+        self.class.observe(line, resp, class == Class::Contract && resp != "bad-op");
+        if self.class.tainted && !was {
+            let why: Vec<&str> = self.class.tainted_by.split_ascii_whitespace().take(if self.class.tainted_by.starts_with("connection closed") { 5 } else { 2 }).collect();
+            *self.class_hist.entry(format!("taint:{}", why.join("_"))).or_default() += 1;
+        }
     }
 
     /// Mark the current case as non-trivial (by the component's stated rule).
